@@ -47,6 +47,54 @@ _counter = itertools.count()
 import os as _os
 
 _DEBUG = bool(_os.environ.get("PYVC_DEBUG"))
+_QLOG = _os.environ.get("PYVC_QLOG")  # debugging aid: one JSON line per solver query (where, seconds, verdict, reason, rlimit used)
+
+
+_QLAST = {}
+
+# -- budgets ------------------------------------------------------------------------------------------------------------------
+# A verdict should not depend on the load of the machine. What ends a hopeless query is, first of all, z3's resource counter
+# (`rlimit`): the same query stops at about the same point on an idle and on an overloaded machine. Two reservations, both
+# measured on the unchanged tree (PYVC_QLOG):
+#  * z3's non-linear arithmetic is chaotic from process to process - the same pruning query took 11 000 units in one run and
+#    300 000 in the next, the most expensive *decisive* (`unsat`) path query of a check varied between 230 000 and 790 000 - so
+#    no limit is a guarantee; an exploration that ends with an engine limit is therefore repeated with other solver seeds
+#    (harness.run_cases), each attempt being a complete exploration with all its obligations;
+#  * a larger limit is not simply better: with 1 800 000 units the path solver reaches nlsat / Groebner calls that neither
+#    advance the counter nor honour the wall-clock timeout (one query ran 491 s against a 40 s timeout), so the limit of the path
+#    solver stays at the value all seeded changes and refactorings were validated with.
+# The wall-clock limits are a net for the procedures that do not advance the counter. They are sized from the slowest decisive
+# query seen with every core oversubscribed 4.5 times (path solver 6.5 s, obligation queries 15 s), not from the idle machine:
+# the first build's nets (4-7.5 s for the path solver, 30 s + 20 s for an obligation) turned a proof into `unknown` when the
+# machine was slower than that (cold restore).
+WALL_NET_MS = int(_os.environ.get("PYVC_WALL_NET_MS", "40000"))
+PATH_RLIMIT_FULL = 600_000      # E-matching on the stated triggers + arithmetic; about 1-2 s idle
+PATH_RLIMIT_GROUND = 300_000    # only `unsat` of the ground solver is used (sat / unknown both go on to the full solver)
+PATH_WALL_GROUND_MS = 15_000
+NIA_RLIMIT_PER_S = 1_000_000    # z3 binary, non-linear integer problems: resource units granted per second of nominal budget
+
+
+def qlog(where, seconds, verdict, solver=None, **extra):
+    if not _QLOG:
+        return
+    import json as _json
+
+    rec = {"where": where, "s": round(seconds, 4), "verdict": str(verdict), "pid": _os.getpid()}
+    if solver is not None:
+        try:
+            if str(verdict) == "unknown":
+                rec["reason"] = solver.reason_unknown()
+            st = solver.statistics()
+            if "rlimit count" in st.keys():
+                tot = st.get_key_value("rlimit count")
+                # the counter is cumulative and shared by all solvers of the (main) context of this process
+                rec["rlimit"] = tot - _QLAST.get("tot", 0)
+                _QLAST["tot"] = tot
+        except Exception:  # noqa: BLE001
+            pass
+    rec.update(extra)
+    with open(_QLOG, "a") as fh:
+        fh.write(_json.dumps(rec) + "\n")
 
 
 def fresh_name(prefix):
@@ -208,18 +256,18 @@ class Path:
         """two persistent incremental solvers: ground (path condition only) and full (+ hypotheses)"""
         if getattr(self, "_full", None) is None:
             self._full = z3.Solver()
-            # the deterministic resource limit below is what normally ends a hopeless query; the wall-clock timeout is a
-            # generous safety net, so that verdicts do not depend on the load of the machine
-            self._full.set("timeout", self.timeout_ms * 5)
+            # the deterministic resource limit below is what ends a hopeless query; the wall-clock timeout is a
+            # safety net only (see "budgets" at the top of this module)
+            self._full.set("timeout", max(self.timeout_ms * 5, WALL_NET_MS))
             # entailment-only use: proofs come from E-matching on the stated triggers; model-based quantifier
             # instantiation is switched off so that non-theorems give "unknown" quickly instead of searching a model
             self._full.set("smt.mbqi", False)
             self._full.set("auto_config", False)
-            self._full.set("rlimit", 600_000)
+            self._full.set("rlimit", PATH_RLIMIT_FULL)
             self._full.set("smt.arith.nl.rounds", 64)
             self._ground = z3.Solver()
-            self._ground.set("timeout", min(self.timeout_ms, 1000) * 5)
-            self._ground.set("rlimit", 300_000)
+            self._ground.set("timeout", max(min(self.timeout_ms, 1000) * 5, PATH_WALL_GROUND_MS))
+            self._ground.set("rlimit", PATH_RLIMIT_GROUND)
             self._n_hyps = 0
             self._n_pc = 0
             self._n_str = 0
@@ -255,6 +303,9 @@ class Path:
         r = s.check(*extra)
         self.solver_seconds += time.time() - t
         self.solver_calls += 1
+        if _QLOG:
+            qlog("path.ground" if s is getattr(self, "_ground", None) else "path.full", time.time() - t, r, s,
+                 cond=str(extra[0])[:400].replace("\n", " ") if extra else None, npc=len(self.pc))
         return r
 
     def feasible(self, cond):
@@ -282,7 +333,8 @@ class Path:
             return False
         facts = list(self.pc) + [h for h in self.hyps if not quantified(h)] + self._ctx() + [z3.Not(cond)]
         s = z3.Solver()
-        s.set("timeout", timeout_ms)
+        s.set("rlimit", int(timeout_ms * 1500))  # deterministic budget; wall-clock limit as safety net ("budgets" above)
+        s.set("timeout", max(timeout_ms * 2, WALL_NET_MS))
         s.add(facts)
         import time
 
@@ -586,18 +638,24 @@ def nia_portfolio(assertions, budget_ms=4000):
             fh.write(text)
             name = fh.name
         try:
+            # two complete attempts with different seeds; each is bounded by the deterministic resource counter (the nominal
+            # budget in seconds times NIA_RLIMIT_PER_S), the wall-clock limit is the safety net
+            nominal_s = budget_ms / 2000.0 + 1
+            rlimit = int(nominal_s * NIA_RLIMIT_PER_S)
+            wall_s = max(int(nominal_s * 4), WALL_NET_MS // 1000)
             for seed in (0, 7):
-                left = budget_ms / 1000.0 - (time.time() - t0)
-                if left <= 0.2:
-                    break
+                t1 = time.time()
                 try:
-                    out = subprocess.run([exe, f"-T:{max(1, int(min(left, budget_ms / 2000.0 + 1)))}", f"smt.random_seed={seed}", name],
-                                         capture_output=True, text=True, timeout=left + 2).stdout.strip().splitlines()
+                    out = subprocess.run([exe, f"-T:{wall_s}", "-st", f"rlimit={rlimit}", f"smt.random_seed={seed}", name],
+                                         capture_output=True, text=True, timeout=wall_s + 5).stdout.strip().splitlines()
                 except subprocess.TimeoutExpired:
                     out = []
                 verdict = out[0].strip() if out else "unknown"
                 if _DEBUG:
                     print(f"[nia] {exe} seed={seed} -> {verdict} {time.time() - t0:.2f}s")
+                if _QLOG:
+                    used = [ln.split()[-1].rstrip(")") for ln in out if "rlimit-count" in ln]
+                    qlog("nia", time.time() - t1, verdict, seed=seed, rlimit=int(used[0]) if used else None, granted=rlimit)
                 if verdict == "unsat":
                     return z3.unsat
                 if verdict == "sat":
